@@ -1,9 +1,12 @@
 #!/bin/sh
-# usage: tools/seedtest.sh <patch.diff> <property id> [tier]   -- applies the patch to /repo, runs the check, reverts
+# usage: tools/seedtest.sh <patch.diff> <property id> [tier]
+# Applies the seeded change in a scratch worktree of /repo (outside /repo and /verif), runs the check against that tree
+# (VERIF_REPO), removes the worktree. /repo itself is never touched, so other runs are not disturbed.
 P="$1"; ID="$2"; TIER="${3:-quick}"
-cd /repo && git diff --quiet || { echo "/repo dirty"; exit 3; }
-git -C /repo apply "$P" || { echo "patch does not apply"; exit 3; }
-cd /verif && ./check "$ID" --tier "$TIER" > /tmp/seedtest_$$.log 2>&1; RC=$?
-git -C /repo checkout -- .
+WT=/tmp/wt/seedtest_$$
+git -C /repo worktree add --detach "$WT" HEAD -q || exit 3
+git -C "$WT" apply "$P" || { echo "patch does not apply"; git -C /repo worktree remove --force "$WT"; exit 3; }
+cd /verif && VERIF_REPO="$WT" ./check "$ID" --tier "$TIER" > /tmp/seedtest_$$.log 2>&1; RC=$?
+git -C /repo worktree remove --force "$WT"
 grep -E "^VIOLATION|^  key=|KNOWN-FINDING|MACHINERY|seed=" /tmp/seedtest_$$.log | head -${LINES_MAX:-12}
 echo "rc=$RC"; rm -f /tmp/seedtest_$$.log
